@@ -1,0 +1,631 @@
+//go:build verif
+// +build verif
+
+package slog
+
+// Contracts for the lvc verifier (see /verif/DESIGN.md). This file is only
+// compiled with -tags=verif. It holds //@ clauses (read by lvc), ghost state
+// (never touched by executable code) and pure, loop-free spec functions that
+// the clauses call. Nothing in here runs in a normal build or in the tests.
+
+// ghost is specification-only state.
+var ghost struct {
+	debugMode bool // what states.Env().GetDebugMode() returns (process-wide debug switch)
+	emits     int  // number of records that entered (*Entry).logContext
+}
+
+// specTreat: the built-in level a severity is compared as (C01 "treated as").
+func specTreat(r Level) Level {
+	if l, ok := mLevelIsEnabledAs[r]; ok {
+		return l
+	}
+	return r
+}
+
+// specAdmits is the admission rule of property C01, written from the
+// property statement: L is the logger's level, r the record's severity.
+func specAdmits(L, r Level) bool {
+	if L == OffLevel || r == OffLevel {
+		return false
+	}
+	if L == AlwaysLevel || r == AlwaysLevel {
+		return true
+	}
+	if ghost.debugMode && r == DebugLevel {
+		return true
+	}
+	return specTreat(r) <= L
+}
+
+// specDefaultEntry: the *Entry behind the package-level default logger (nil for
+// user-defined Logger implementations, which the package-level verbs ignore).
+func specDefaultEntry() *Entry {
+	switch s := defaultLog.(type) {
+	case *logimp:
+		if s == nil {
+			return nil
+		}
+		return s.Entry
+	case *Entry:
+		return s
+	}
+	return nil
+}
+
+// ---------------------------------------------------------------- C01 gating
+
+//@ func (Level).Enabled
+//@   props C01
+//@   ensures [C01.spec] result == specAdmits(level, testingLevel)
+
+//@ func (*Entry).Level
+//@   props C01
+//@   requires s != nil
+//@   ensures [C01.level] result == s.level
+
+//@ func (*Entry).EnabledContext
+//@   props C01
+//@   requires s != nil
+//@   ensures [C01.spec] result == specAdmits(s.level, lvl)
+
+//@ func (*Entry).Enabled
+//@   props C01
+//@   requires s != nil
+//@   ensures [C01.spec] result == specAdmits(s.level, lvl)
+
+//@ func getpc
+//@   trusted
+
+//@ func (*Entry).print
+//@   trusted
+//@   assigns everything
+//@   ensures ghost.emits >= old(ghost.emits)
+
+//@ func (*Entry).collectArgs
+//@   trusted
+//@   assigns everything
+//@   ensures ghost.emits == old(ghost.emits)
+
+//@ func (*Entry).logContext
+//@   props C01
+//@   requires s != nil
+//@   maypanic
+//@   effect ghost.emits = ghost.emits + 1
+//@   assigns everything
+//@   ensures [C01.count] ghost.emits >= old(ghost.emits) + 1
+
+//@ func (*Entry).log1
+//@   props C01
+//@   requires s != nil
+//@   assigns everything
+//@   maypanic
+//@   ensures [C01.gate] implies(!old(specAdmits(s.level, lvl)), ghost.emits == old(ghost.emits))
+//@   ensures [C01.emit] implies(old(specAdmits(s.level, lvl)), ghost.emits > old(ghost.emits))
+//@   at call (*Entry).logContext assert [C01.sev] callee.lvl == lvl && callee.s == s
+
+//@ func logctxctx
+//@   props C01
+//@   requires specDefaultEntry() != nil
+//@   assigns everything
+//@   maypanic
+//@   ensures [C01.gate] implies(!old(specAdmits(specDefaultEntry().level, lvl)), ghost.emits == old(ghost.emits))
+//@   ensures [C01.emit] implies(old(specAdmits(specDefaultEntry().level, lvl)), ghost.emits > old(ghost.emits))
+//@   at call (*Entry).logContext assert [C01.sev] callee.lvl == lvl && callee.s == specDefaultEntry()
+
+//@ func logctx
+//@   props C01
+//@   requires specDefaultEntry() != nil
+//@   assigns everything
+//@   maypanic
+//@   ensures [C01.gate] implies(!old(specAdmits(specDefaultEntry().level, lvl)), ghost.emits == old(ghost.emits))
+//@   ensures [C01.emit] implies(old(specAdmits(specDefaultEntry().level, lvl)), ghost.emits > old(ghost.emits))
+//@   at call logctxctx assert [C01.sev] callee.lvl == lvl
+
+//@ func (*Entry).Println
+//@   props C01
+//@   requires s != nil
+//@   assigns everything
+//@   maypanic
+//@   ensures [C01.gate] implies(!old(specAdmits(s.level, AlwaysLevel)), ghost.emits == old(ghost.emits))
+//@   ensures [C01.emit] implies(old(specAdmits(s.level, AlwaysLevel)), ghost.emits > old(ghost.emits))
+//@   at call (*Entry).log1 assert [C01.sev] callee.lvl == AlwaysLevel && callee.s == s
+
+//@ func Println
+//@   props C01
+//@   requires specDefaultEntry() != nil
+//@   assigns everything
+//@   maypanic
+//@   ensures [C01.gate] implies(!old(specAdmits(specDefaultEntry().level, AlwaysLevel)), ghost.emits == old(ghost.emits))
+//@   ensures [C01.emit] implies(old(specAdmits(specDefaultEntry().level, AlwaysLevel)), ghost.emits > old(ghost.emits))
+//@   at call logctx assert [C01.sev] callee.lvl == AlwaysLevel
+
+//@ func (*Entry).Log
+//@   props C01
+//@   requires s != nil
+//@   assigns everything
+//@   maypanic
+//@   ensures [C01.gate] implies(!old(specAdmits(s.level, logsloglevel2Level(level))), ghost.emits == old(ghost.emits))
+//@   ensures [C01.emit] implies(old(specAdmits(s.level, logsloglevel2Level(level))), ghost.emits > old(ghost.emits))
+//@   at call (*Entry).logContext assert [C01.sev] callee.lvl == logsloglevel2Level(level) && callee.s == s
+
+//@ func (*Entry).Verbose
+//@   props C01
+//@   ensures [C01.silent] ghost.emits == old(ghost.emits)
+
+//@ func (*Entry).VerboseContext
+//@   props C01
+//@   ensures [C01.silent] ghost.emits == old(ghost.emits)
+
+//@ func vlogctx
+//@   props C01
+//@   ensures [C01.silent] ghost.emits == old(ghost.emits)
+
+//@ func Verbose
+//@   props C01
+//@   ensures [C01.silent] ghost.emits == old(ghost.emits)
+
+//@ func VerboseContext
+//@   props C01
+//@   ensures [C01.silent] ghost.emits == old(ghost.emits)
+
+// ---- generated by /verif/tools/gen_c01.py: one block per public entry point
+
+//@ func (*Entry).Panic
+//@   props C01
+//@   requires s != nil
+//@   assigns everything
+//@   maypanic
+//@   ensures [C01.gate] implies(!old(specAdmits(s.level, PanicLevel)), ghost.emits == old(ghost.emits))
+//@   ensures [C01.emit] implies(old(specAdmits(s.level, PanicLevel)), ghost.emits > old(ghost.emits))
+//@   at call (*Entry).log1 assert [C01.sev] callee.lvl == PanicLevel && callee.s == s
+//@
+//@ func (*Entry).Fatal
+//@   props C01
+//@   requires s != nil
+//@   assigns everything
+//@   maypanic
+//@   ensures [C01.gate] implies(!old(specAdmits(s.level, FatalLevel)), ghost.emits == old(ghost.emits))
+//@   ensures [C01.emit] implies(old(specAdmits(s.level, FatalLevel)), ghost.emits > old(ghost.emits))
+//@   at call (*Entry).log1 assert [C01.sev] callee.lvl == FatalLevel && callee.s == s
+//@
+//@ func (*Entry).Error
+//@   props C01
+//@   requires s != nil
+//@   assigns everything
+//@   maypanic
+//@   ensures [C01.gate] implies(!old(specAdmits(s.level, ErrorLevel)), ghost.emits == old(ghost.emits))
+//@   ensures [C01.emit] implies(old(specAdmits(s.level, ErrorLevel)), ghost.emits > old(ghost.emits))
+//@   at call (*Entry).log1 assert [C01.sev] callee.lvl == ErrorLevel && callee.s == s
+//@
+//@ func (*Entry).Warn
+//@   props C01
+//@   requires s != nil
+//@   assigns everything
+//@   maypanic
+//@   ensures [C01.gate] implies(!old(specAdmits(s.level, WarnLevel)), ghost.emits == old(ghost.emits))
+//@   ensures [C01.emit] implies(old(specAdmits(s.level, WarnLevel)), ghost.emits > old(ghost.emits))
+//@   at call (*Entry).log1 assert [C01.sev] callee.lvl == WarnLevel && callee.s == s
+//@
+//@ func (*Entry).Info
+//@   props C01
+//@   requires s != nil
+//@   assigns everything
+//@   maypanic
+//@   ensures [C01.gate] implies(!old(specAdmits(s.level, InfoLevel)), ghost.emits == old(ghost.emits))
+//@   ensures [C01.emit] implies(old(specAdmits(s.level, InfoLevel)), ghost.emits > old(ghost.emits))
+//@   at call (*Entry).log1 assert [C01.sev] callee.lvl == InfoLevel && callee.s == s
+//@
+//@ func (*Entry).Debug
+//@   props C01
+//@   requires s != nil
+//@   assigns everything
+//@   maypanic
+//@   ensures [C01.gate] implies(!old(specAdmits(s.level, DebugLevel)), ghost.emits == old(ghost.emits))
+//@   ensures [C01.emit] implies(old(specAdmits(s.level, DebugLevel)), ghost.emits > old(ghost.emits))
+//@   at call (*Entry).log1 assert [C01.sev] callee.lvl == DebugLevel && callee.s == s
+//@
+//@ func (*Entry).Trace
+//@   props C01
+//@   requires s != nil
+//@   assigns everything
+//@   maypanic
+//@   ensures [C01.gate] implies(!old(specAdmits(s.level, TraceLevel)), ghost.emits == old(ghost.emits))
+//@   ensures [C01.emit] implies(old(specAdmits(s.level, TraceLevel)), ghost.emits > old(ghost.emits))
+//@   at call (*Entry).log1 assert [C01.sev] callee.lvl == TraceLevel && callee.s == s
+//@
+//@ func (*Entry).Print
+//@   props C01
+//@   requires s != nil
+//@   assigns everything
+//@   maypanic
+//@   ensures [C01.gate] implies(!old(specAdmits(s.level, AlwaysLevel)), ghost.emits == old(ghost.emits))
+//@   ensures [C01.emit] implies(old(specAdmits(s.level, AlwaysLevel)), ghost.emits > old(ghost.emits))
+//@   at call (*Entry).log1 assert [C01.sev] callee.lvl == AlwaysLevel && callee.s == s
+//@
+//@ func (*Entry).OK
+//@   props C01
+//@   requires s != nil
+//@   assigns everything
+//@   maypanic
+//@   ensures [C01.gate] implies(!old(specAdmits(s.level, OKLevel)), ghost.emits == old(ghost.emits))
+//@   ensures [C01.emit] implies(old(specAdmits(s.level, OKLevel)), ghost.emits > old(ghost.emits))
+//@   at call (*Entry).log1 assert [C01.sev] callee.lvl == OKLevel && callee.s == s
+//@
+//@ func (*Entry).Success
+//@   props C01
+//@   requires s != nil
+//@   assigns everything
+//@   maypanic
+//@   ensures [C01.gate] implies(!old(specAdmits(s.level, SuccessLevel)), ghost.emits == old(ghost.emits))
+//@   ensures [C01.emit] implies(old(specAdmits(s.level, SuccessLevel)), ghost.emits > old(ghost.emits))
+//@   at call (*Entry).log1 assert [C01.sev] callee.lvl == SuccessLevel && callee.s == s
+//@
+//@ func (*Entry).Fail
+//@   props C01
+//@   requires s != nil
+//@   assigns everything
+//@   maypanic
+//@   ensures [C01.gate] implies(!old(specAdmits(s.level, FailLevel)), ghost.emits == old(ghost.emits))
+//@   ensures [C01.emit] implies(old(specAdmits(s.level, FailLevel)), ghost.emits > old(ghost.emits))
+//@   at call (*Entry).log1 assert [C01.sev] callee.lvl == FailLevel && callee.s == s
+//@
+//@ func (*Entry).PanicContext
+//@   props C01
+//@   requires s != nil
+//@   assigns everything
+//@   maypanic
+//@   ensures [C01.gate] implies(!old(specAdmits(s.level, PanicLevel)), ghost.emits == old(ghost.emits))
+//@   ensures [C01.emit] implies(old(specAdmits(s.level, PanicLevel)), ghost.emits > old(ghost.emits))
+//@   at call (*Entry).logContext assert [C01.sev] callee.lvl == PanicLevel && callee.s == s
+//@
+//@ func (*Entry).FatalContext
+//@   props C01
+//@   requires s != nil
+//@   assigns everything
+//@   maypanic
+//@   ensures [C01.gate] implies(!old(specAdmits(s.level, FatalLevel)), ghost.emits == old(ghost.emits))
+//@   ensures [C01.emit] implies(old(specAdmits(s.level, FatalLevel)), ghost.emits > old(ghost.emits))
+//@   at call (*Entry).logContext assert [C01.sev] callee.lvl == FatalLevel && callee.s == s
+//@
+//@ func (*Entry).ErrorContext
+//@   props C01
+//@   requires s != nil
+//@   assigns everything
+//@   maypanic
+//@   ensures [C01.gate] implies(!old(specAdmits(s.level, ErrorLevel)), ghost.emits == old(ghost.emits))
+//@   ensures [C01.emit] implies(old(specAdmits(s.level, ErrorLevel)), ghost.emits > old(ghost.emits))
+//@   at call (*Entry).logContext assert [C01.sev] callee.lvl == ErrorLevel && callee.s == s
+//@
+//@ func (*Entry).WarnContext
+//@   props C01
+//@   requires s != nil
+//@   assigns everything
+//@   maypanic
+//@   ensures [C01.gate] implies(!old(specAdmits(s.level, WarnLevel)), ghost.emits == old(ghost.emits))
+//@   ensures [C01.emit] implies(old(specAdmits(s.level, WarnLevel)), ghost.emits > old(ghost.emits))
+//@   at call (*Entry).logContext assert [C01.sev] callee.lvl == WarnLevel && callee.s == s
+//@
+//@ func (*Entry).InfoContext
+//@   props C01
+//@   requires s != nil
+//@   assigns everything
+//@   maypanic
+//@   ensures [C01.gate] implies(!old(specAdmits(s.level, InfoLevel)), ghost.emits == old(ghost.emits))
+//@   ensures [C01.emit] implies(old(specAdmits(s.level, InfoLevel)), ghost.emits > old(ghost.emits))
+//@   at call (*Entry).logContext assert [C01.sev] callee.lvl == InfoLevel && callee.s == s
+//@
+//@ func (*Entry).DebugContext
+//@   props C01
+//@   requires s != nil
+//@   assigns everything
+//@   maypanic
+//@   ensures [C01.gate] implies(!old(specAdmits(s.level, DebugLevel)), ghost.emits == old(ghost.emits))
+//@   ensures [C01.emit] implies(old(specAdmits(s.level, DebugLevel)), ghost.emits > old(ghost.emits))
+//@   at call (*Entry).logContext assert [C01.sev] callee.lvl == DebugLevel && callee.s == s
+//@
+//@ func (*Entry).TraceContext
+//@   props C01
+//@   requires s != nil
+//@   assigns everything
+//@   maypanic
+//@   ensures [C01.gate] implies(!old(specAdmits(s.level, TraceLevel)), ghost.emits == old(ghost.emits))
+//@   ensures [C01.emit] implies(old(specAdmits(s.level, TraceLevel)), ghost.emits > old(ghost.emits))
+//@   at call (*Entry).logContext assert [C01.sev] callee.lvl == TraceLevel && callee.s == s
+//@
+//@ func (*Entry).PrintContext
+//@   props C01
+//@   requires s != nil
+//@   assigns everything
+//@   maypanic
+//@   ensures [C01.gate] implies(!old(specAdmits(s.level, AlwaysLevel)), ghost.emits == old(ghost.emits))
+//@   ensures [C01.emit] implies(old(specAdmits(s.level, AlwaysLevel)), ghost.emits > old(ghost.emits))
+//@   at call (*Entry).logContext assert [C01.sev] callee.lvl == AlwaysLevel && callee.s == s
+//@
+//@ func (*Entry).OKContext
+//@   props C01
+//@   requires s != nil
+//@   assigns everything
+//@   maypanic
+//@   ensures [C01.gate] implies(!old(specAdmits(s.level, OKLevel)), ghost.emits == old(ghost.emits))
+//@   ensures [C01.emit] implies(old(specAdmits(s.level, OKLevel)), ghost.emits > old(ghost.emits))
+//@   at call (*Entry).logContext assert [C01.sev] callee.lvl == OKLevel && callee.s == s
+//@
+//@ func (*Entry).SuccessContext
+//@   props C01
+//@   requires s != nil
+//@   assigns everything
+//@   maypanic
+//@   ensures [C01.gate] implies(!old(specAdmits(s.level, SuccessLevel)), ghost.emits == old(ghost.emits))
+//@   ensures [C01.emit] implies(old(specAdmits(s.level, SuccessLevel)), ghost.emits > old(ghost.emits))
+//@   at call (*Entry).logContext assert [C01.sev] callee.lvl == SuccessLevel && callee.s == s
+//@
+//@ func (*Entry).FailContext
+//@   props C01
+//@   requires s != nil
+//@   assigns everything
+//@   maypanic
+//@   ensures [C01.gate] implies(!old(specAdmits(s.level, FailLevel)), ghost.emits == old(ghost.emits))
+//@   ensures [C01.emit] implies(old(specAdmits(s.level, FailLevel)), ghost.emits > old(ghost.emits))
+//@   at call (*Entry).logContext assert [C01.sev] callee.lvl == FailLevel && callee.s == s
+//@
+//@ func (*Entry).PrintlnContext
+//@   props C01
+//@   requires s != nil
+//@   assigns everything
+//@   maypanic
+//@   ensures [C01.gate] implies(!old(specAdmits(s.level, AlwaysLevel)), ghost.emits == old(ghost.emits))
+//@   ensures [C01.emit] implies(old(specAdmits(s.level, AlwaysLevel)), ghost.emits > old(ghost.emits))
+//@   at call (*Entry).logContext assert [C01.sev] callee.lvl == AlwaysLevel && callee.s == s
+//@
+//@ func (*Entry).LogAttrs
+//@   props C01
+//@   requires s != nil
+//@   assigns everything
+//@   maypanic
+//@   ensures [C01.gate] implies(!old(specAdmits(s.level, level)), ghost.emits == old(ghost.emits))
+//@   ensures [C01.emit] implies(old(specAdmits(s.level, level)), ghost.emits > old(ghost.emits))
+//@   at call (*Entry).logContext assert [C01.sev] callee.lvl == level && callee.s == s
+//@
+//@ func (*Entry).Logit
+//@   props C01
+//@   requires s != nil
+//@   assigns everything
+//@   maypanic
+//@   ensures [C01.gate] implies(!old(specAdmits(s.level, level)), ghost.emits == old(ghost.emits))
+//@   ensures [C01.emit] implies(old(specAdmits(s.level, level)), ghost.emits > old(ghost.emits))
+//@   at call (*Entry).logContext assert [C01.sev] callee.lvl == level && callee.s == s
+//@
+//@ func (*Entry).Infof
+//@   props C01
+//@   requires s != nil
+//@   assigns everything
+//@   maypanic
+//@   ensures [C01.gate] implies(!old(specAdmits(s.level, InfoLevel)), ghost.emits == old(ghost.emits))
+//@   ensures [C01.emit] implies(old(specAdmits(s.level, InfoLevel)), ghost.emits > old(ghost.emits))
+//@   at call (*Entry).logContext assert [C01.sev] callee.lvl == InfoLevel && callee.s == s
+//@
+//@ func (*Entry).Warnf
+//@   props C01
+//@   requires s != nil
+//@   assigns everything
+//@   maypanic
+//@   ensures [C01.gate] implies(!old(specAdmits(s.level, WarnLevel)), ghost.emits == old(ghost.emits))
+//@   ensures [C01.emit] implies(old(specAdmits(s.level, WarnLevel)), ghost.emits > old(ghost.emits))
+//@   at call (*Entry).logContext assert [C01.sev] callee.lvl == WarnLevel && callee.s == s
+//@
+//@ func (*Entry).Errorf
+//@   props C01
+//@   requires s != nil
+//@   assigns everything
+//@   maypanic
+//@   ensures [C01.gate] implies(!old(specAdmits(s.level, ErrorLevel)), ghost.emits == old(ghost.emits))
+//@   ensures [C01.emit] implies(old(specAdmits(s.level, ErrorLevel)), ghost.emits > old(ghost.emits))
+//@   at call (*Entry).logContext assert [C01.sev] callee.lvl == ErrorLevel && callee.s == s
+//@
+//@ func Panic
+//@   props C01
+//@   requires specDefaultEntry() != nil
+//@   assigns everything
+//@   maypanic
+//@   ensures [C01.gate] implies(!old(specAdmits(specDefaultEntry().level, PanicLevel)), ghost.emits == old(ghost.emits))
+//@   ensures [C01.emit] implies(old(specAdmits(specDefaultEntry().level, PanicLevel)), ghost.emits > old(ghost.emits))
+//@   at call logctx assert [C01.sev] callee.lvl == PanicLevel
+//@
+//@ func Fatal
+//@   props C01
+//@   requires specDefaultEntry() != nil
+//@   assigns everything
+//@   maypanic
+//@   ensures [C01.gate] implies(!old(specAdmits(specDefaultEntry().level, FatalLevel)), ghost.emits == old(ghost.emits))
+//@   ensures [C01.emit] implies(old(specAdmits(specDefaultEntry().level, FatalLevel)), ghost.emits > old(ghost.emits))
+//@   at call logctx assert [C01.sev] callee.lvl == FatalLevel
+//@
+//@ func Error
+//@   props C01
+//@   requires specDefaultEntry() != nil
+//@   assigns everything
+//@   maypanic
+//@   ensures [C01.gate] implies(!old(specAdmits(specDefaultEntry().level, ErrorLevel)), ghost.emits == old(ghost.emits))
+//@   ensures [C01.emit] implies(old(specAdmits(specDefaultEntry().level, ErrorLevel)), ghost.emits > old(ghost.emits))
+//@   at call logctx assert [C01.sev] callee.lvl == ErrorLevel
+//@
+//@ func Warn
+//@   props C01
+//@   requires specDefaultEntry() != nil
+//@   assigns everything
+//@   maypanic
+//@   ensures [C01.gate] implies(!old(specAdmits(specDefaultEntry().level, WarnLevel)), ghost.emits == old(ghost.emits))
+//@   ensures [C01.emit] implies(old(specAdmits(specDefaultEntry().level, WarnLevel)), ghost.emits > old(ghost.emits))
+//@   at call logctx assert [C01.sev] callee.lvl == WarnLevel
+//@
+//@ func Info
+//@   props C01
+//@   requires specDefaultEntry() != nil
+//@   assigns everything
+//@   maypanic
+//@   ensures [C01.gate] implies(!old(specAdmits(specDefaultEntry().level, InfoLevel)), ghost.emits == old(ghost.emits))
+//@   ensures [C01.emit] implies(old(specAdmits(specDefaultEntry().level, InfoLevel)), ghost.emits > old(ghost.emits))
+//@   at call logctx assert [C01.sev] callee.lvl == InfoLevel
+//@
+//@ func Debug
+//@   props C01
+//@   requires specDefaultEntry() != nil
+//@   assigns everything
+//@   maypanic
+//@   ensures [C01.gate] implies(!old(specAdmits(specDefaultEntry().level, DebugLevel)), ghost.emits == old(ghost.emits))
+//@   ensures [C01.emit] implies(old(specAdmits(specDefaultEntry().level, DebugLevel)), ghost.emits > old(ghost.emits))
+//@   at call logctx assert [C01.sev] callee.lvl == DebugLevel
+//@
+//@ func Trace
+//@   props C01
+//@   requires specDefaultEntry() != nil
+//@   assigns everything
+//@   maypanic
+//@   ensures [C01.gate] implies(!old(specAdmits(specDefaultEntry().level, TraceLevel)), ghost.emits == old(ghost.emits))
+//@   ensures [C01.emit] implies(old(specAdmits(specDefaultEntry().level, TraceLevel)), ghost.emits > old(ghost.emits))
+//@   at call logctx assert [C01.sev] callee.lvl == TraceLevel
+//@
+//@ func Print
+//@   props C01
+//@   requires specDefaultEntry() != nil
+//@   assigns everything
+//@   maypanic
+//@   ensures [C01.gate] implies(!old(specAdmits(specDefaultEntry().level, AlwaysLevel)), ghost.emits == old(ghost.emits))
+//@   ensures [C01.emit] implies(old(specAdmits(specDefaultEntry().level, AlwaysLevel)), ghost.emits > old(ghost.emits))
+//@   at call logctx assert [C01.sev] callee.lvl == AlwaysLevel
+//@
+//@ func OK
+//@   props C01
+//@   requires specDefaultEntry() != nil
+//@   assigns everything
+//@   maypanic
+//@   ensures [C01.gate] implies(!old(specAdmits(specDefaultEntry().level, OKLevel)), ghost.emits == old(ghost.emits))
+//@   ensures [C01.emit] implies(old(specAdmits(specDefaultEntry().level, OKLevel)), ghost.emits > old(ghost.emits))
+//@   at call logctx assert [C01.sev] callee.lvl == OKLevel
+//@
+//@ func Success
+//@   props C01
+//@   requires specDefaultEntry() != nil
+//@   assigns everything
+//@   maypanic
+//@   ensures [C01.gate] implies(!old(specAdmits(specDefaultEntry().level, SuccessLevel)), ghost.emits == old(ghost.emits))
+//@   ensures [C01.emit] implies(old(specAdmits(specDefaultEntry().level, SuccessLevel)), ghost.emits > old(ghost.emits))
+//@   at call logctx assert [C01.sev] callee.lvl == SuccessLevel
+//@
+//@ func Fail
+//@   props C01
+//@   requires specDefaultEntry() != nil
+//@   assigns everything
+//@   maypanic
+//@   ensures [C01.gate] implies(!old(specAdmits(specDefaultEntry().level, FailLevel)), ghost.emits == old(ghost.emits))
+//@   ensures [C01.emit] implies(old(specAdmits(specDefaultEntry().level, FailLevel)), ghost.emits > old(ghost.emits))
+//@   at call logctx assert [C01.sev] callee.lvl == FailLevel
+//@
+//@ func PanicContext
+//@   props C01
+//@   requires specDefaultEntry() != nil
+//@   assigns everything
+//@   maypanic
+//@   ensures [C01.gate] implies(!old(specAdmits(specDefaultEntry().level, PanicLevel)), ghost.emits == old(ghost.emits))
+//@   ensures [C01.emit] implies(old(specAdmits(specDefaultEntry().level, PanicLevel)), ghost.emits > old(ghost.emits))
+//@   at call logctxctx assert [C01.sev] callee.lvl == PanicLevel
+//@
+//@ func FatalContext
+//@   props C01
+//@   requires specDefaultEntry() != nil
+//@   assigns everything
+//@   maypanic
+//@   ensures [C01.gate] implies(!old(specAdmits(specDefaultEntry().level, FatalLevel)), ghost.emits == old(ghost.emits))
+//@   ensures [C01.emit] implies(old(specAdmits(specDefaultEntry().level, FatalLevel)), ghost.emits > old(ghost.emits))
+//@   at call logctxctx assert [C01.sev] callee.lvl == FatalLevel
+//@
+//@ func ErrorContext
+//@   props C01
+//@   requires specDefaultEntry() != nil
+//@   assigns everything
+//@   maypanic
+//@   ensures [C01.gate] implies(!old(specAdmits(specDefaultEntry().level, ErrorLevel)), ghost.emits == old(ghost.emits))
+//@   ensures [C01.emit] implies(old(specAdmits(specDefaultEntry().level, ErrorLevel)), ghost.emits > old(ghost.emits))
+//@   at call logctxctx assert [C01.sev] callee.lvl == ErrorLevel
+//@
+//@ func WarnContext
+//@   props C01
+//@   requires specDefaultEntry() != nil
+//@   assigns everything
+//@   maypanic
+//@   ensures [C01.gate] implies(!old(specAdmits(specDefaultEntry().level, WarnLevel)), ghost.emits == old(ghost.emits))
+//@   ensures [C01.emit] implies(old(specAdmits(specDefaultEntry().level, WarnLevel)), ghost.emits > old(ghost.emits))
+//@   at call logctxctx assert [C01.sev] callee.lvl == WarnLevel
+//@
+//@ func InfoContext
+//@   props C01
+//@   requires specDefaultEntry() != nil
+//@   assigns everything
+//@   maypanic
+//@   ensures [C01.gate] implies(!old(specAdmits(specDefaultEntry().level, InfoLevel)), ghost.emits == old(ghost.emits))
+//@   ensures [C01.emit] implies(old(specAdmits(specDefaultEntry().level, InfoLevel)), ghost.emits > old(ghost.emits))
+//@   at call logctxctx assert [C01.sev] callee.lvl == InfoLevel
+//@
+//@ func DebugContext
+//@   props C01
+//@   requires specDefaultEntry() != nil
+//@   assigns everything
+//@   maypanic
+//@   ensures [C01.gate] implies(!old(specAdmits(specDefaultEntry().level, DebugLevel)), ghost.emits == old(ghost.emits))
+//@   ensures [C01.emit] implies(old(specAdmits(specDefaultEntry().level, DebugLevel)), ghost.emits > old(ghost.emits))
+//@   at call logctxctx assert [C01.sev] callee.lvl == DebugLevel
+//@
+//@ func TraceContext
+//@   props C01
+//@   requires specDefaultEntry() != nil
+//@   assigns everything
+//@   maypanic
+//@   ensures [C01.gate] implies(!old(specAdmits(specDefaultEntry().level, TraceLevel)), ghost.emits == old(ghost.emits))
+//@   ensures [C01.emit] implies(old(specAdmits(specDefaultEntry().level, TraceLevel)), ghost.emits > old(ghost.emits))
+//@   at call logctxctx assert [C01.sev] callee.lvl == TraceLevel
+//@
+//@ func PrintContext
+//@   props C01
+//@   requires specDefaultEntry() != nil
+//@   assigns everything
+//@   maypanic
+//@   ensures [C01.gate] implies(!old(specAdmits(specDefaultEntry().level, AlwaysLevel)), ghost.emits == old(ghost.emits))
+//@   ensures [C01.emit] implies(old(specAdmits(specDefaultEntry().level, AlwaysLevel)), ghost.emits > old(ghost.emits))
+//@   at call logctxctx assert [C01.sev] callee.lvl == AlwaysLevel
+//@
+//@ func OKContext
+//@   props C01
+//@   requires specDefaultEntry() != nil
+//@   assigns everything
+//@   maypanic
+//@   ensures [C01.gate] implies(!old(specAdmits(specDefaultEntry().level, OKLevel)), ghost.emits == old(ghost.emits))
+//@   ensures [C01.emit] implies(old(specAdmits(specDefaultEntry().level, OKLevel)), ghost.emits > old(ghost.emits))
+//@   at call logctxctx assert [C01.sev] callee.lvl == OKLevel
+//@
+//@ func SuccessContext
+//@   props C01
+//@   requires specDefaultEntry() != nil
+//@   assigns everything
+//@   maypanic
+//@   ensures [C01.gate] implies(!old(specAdmits(specDefaultEntry().level, SuccessLevel)), ghost.emits == old(ghost.emits))
+//@   ensures [C01.emit] implies(old(specAdmits(specDefaultEntry().level, SuccessLevel)), ghost.emits > old(ghost.emits))
+//@   at call logctxctx assert [C01.sev] callee.lvl == SuccessLevel
+//@
+//@ func FailContext
+//@   props C01
+//@   requires specDefaultEntry() != nil
+//@   assigns everything
+//@   maypanic
+//@   ensures [C01.gate] implies(!old(specAdmits(specDefaultEntry().level, FailLevel)), ghost.emits == old(ghost.emits))
+//@   ensures [C01.emit] implies(old(specAdmits(specDefaultEntry().level, FailLevel)), ghost.emits > old(ghost.emits))
+//@   at call logctxctx assert [C01.sev] callee.lvl == FailLevel
+//@
+//@ func PrintlnContext
+//@   props C01
+//@   requires specDefaultEntry() != nil
+//@   assigns everything
+//@   maypanic
+//@   ensures [C01.gate] implies(!old(specAdmits(specDefaultEntry().level, AlwaysLevel)), ghost.emits == old(ghost.emits))
+//@   ensures [C01.emit] implies(old(specAdmits(specDefaultEntry().level, AlwaysLevel)), ghost.emits > old(ghost.emits))
+//@   at call logctxctx assert [C01.sev] callee.lvl == AlwaysLevel
+//@
